@@ -163,8 +163,8 @@ def toWriteRaw (i : Ids) : List Name :=
 
 def hasLoop (c : Cfg) (i : Ids) : Bool := c.enableLoop && decide (loopName ∈ toWriteRaw i)
 
-/-- the set iterated by `for ident in to_write` (as a list without duplicates; the real iteration order is
-the hash order – any permutation of this list) -/
+/-- the set `to_write` as a list without duplicates; the code iterates `sorted(to_write)` (`emitOrder`; before the
+hash-seed repair: the set's hash order – `declares_exact` is stated for every permutation of this list) -/
 def toWrite (c : Cfg) (i : Ids) (limit : Option (List Name)) : List Name :=
   let w := if c.enableLoop then (toWriteRaw i).filter (fun x => decide (x ≠ loopName)) else toWriteRaw i
   match limit with
